@@ -225,7 +225,11 @@ func runWorkers(bin string, sc scnSpec, sd uint64, budget time.Duration, tmp str
 				// next run index in a fresh process.
 				crash := libraryCrash(string(ob))
 				if crash == "" {
-					errs[w] = fmt.Errorf("worker %d: %v\n%s", w, err, tail(string(ob), 4000))
+					o := string(ob)
+					if len(o) > 6000 {
+						o = o[:2500] + "\n...\n" + tail(o, 2500)
+					}
+					errs[w] = fmt.Errorf("worker %d: %v\n%s", w, err, o)
 					return
 				}
 				cur, _ := os.ReadFile(out + ".cur")
@@ -262,6 +266,23 @@ func runWorkers(bin string, sc scnSpec, sd uint64, budget time.Duration, tmp str
 // libraryCrash recognises a Go panic / fatal error whose crashing goroutine
 // has a kafka-go frame and returns a one-line description.
 func libraryCrash(out string) string {
+	if i := strings.Index(out, "WATCHDOG: no driver progress"); i >= 0 {
+		// the driver could not run for a minute of real time: some goroutine
+		// of the bubble kept running without reaching a scheduling point. If
+		// that goroutine is executing library code it is a busy loop in the
+		// code under test; anything else is machinery trouble.
+		for _, blk := range strings.Split(out[i:], "\n\n") {
+			h := firstLine(blk)
+			if strings.HasPrefix(blk, "goroutine ") && strings.Contains(h, "synctest bubble") && (strings.Contains(h, "[running") || strings.Contains(h, "[runnable")) {
+				for _, ln := range strings.Split(blk, "\n") {
+					if strings.HasPrefix(ln, "github.com/segmentio/kafka-go") && !strings.Contains(ln, "/zsimrt.") {
+						return "livelock: a library goroutine kept running for 60s of real time without blocking, at " + strings.TrimSpace(ln)
+					}
+				}
+			}
+		}
+		return ""
+	}
 	i := strings.Index(out, "\npanic: ")
 	if i < 0 {
 		i = strings.Index(out, "\nfatal error: ")
@@ -277,12 +298,22 @@ func libraryCrash(out string) string {
 	}
 	rest := out[i:]
 	head := firstLine(rest)
-	// first goroutine block after the message = crashing goroutine
-	blocks := strings.SplitN(rest, "\n\n", 3)
-	if len(blocks) < 2 {
-		return ""
+	// the crashing goroutine: the first goroutine block that is running (a
+	// fatal error prints the runtime's system stack first)
+	crashing := ""
+	for _, blk := range strings.Split(rest, "\n\n") {
+		if strings.HasPrefix(blk, "goroutine ") && strings.Contains(firstLine(blk), "[running") {
+			crashing = blk
+			break
+		}
 	}
-	crashing := blocks[1]
+	if crashing == "" {
+		blocks := strings.SplitN(rest, "\n\n", 3)
+		if len(blocks) < 2 {
+			return ""
+		}
+		crashing = blocks[1]
+	}
 	if !strings.Contains(crashing, "github.com/segmentio/kafka-go") {
 		return ""
 	}
